@@ -24,6 +24,7 @@ import (
 	"github.com/dominant-strategies/go-quai/crypto"
 	"github.com/dominant-strategies/go-quai/crypto/multiset"
 	"github.com/dominant-strategies/go-quai/ethdb"
+	"github.com/dominant-strategies/go-quai/trie"
 	"google.golang.org/protobuf/proto"
 )
 
@@ -435,4 +436,44 @@ func (n *VNode) VBalance(a common.Address) *big.Int {
 
 func (n *VNode) VReceipts(blk *types.WorkObject) types.Receipts {
 	return n.Sl[2].hc.bc.processor.GetReceiptsByHash(blk.Hash())
+}
+
+// ---- Process() as a pure function of (parent state, block) -------------------------------------
+
+// VProcessFingerprint runs the real StateProcessor.Process on blk with a throw-away batch (the DB
+// must be at blk's parent state) and renders every output the property names.
+func (n *VNode) VProcessFingerprint(blk *types.WorkObject) (string, error) {
+	z := n.Sl[2]
+	batch := n.DB[2].NewBatch()
+	receipts, etxs, logs, statedb, usedGas, usedState, utxoSetSize, multiSet, unlocks, err := z.hc.bc.processor.Process(blk, batch)
+	batch.Reset()
+	if err != nil {
+		return "", err
+	}
+	rs := types.DeriveSha(receipts, trie.NewStackTrie(nil))
+	es := types.DeriveSha(types.Transactions(etxs), trie.NewStackTrie(nil))
+	var st bytes.Buffer
+	for _, r := range receipts {
+		fmt.Fprintf(&st, "%d/%d/%d;", r.Status, r.GasUsed, len(r.OutboundEtxs))
+	}
+	return fmt.Sprintf("receiptRoot=%x etxRoot=%x gas=%d state=%d setSize=%d muhash=%x evm=%x etxset=%x trieSize=%v logs=%d unlocks=%d receipts=%s",
+		rs[:6], es[:6], usedGas, usedState, utxoSetSize, multiSet.Hash().Bytes()[:6], statedb.IntermediateRoot(true).Bytes()[:6], statedb.ETXRoot().Bytes()[:6], statedb.GetQuaiTrieSize(), len(logs), len(unlocks), st.String()), nil
+}
+
+// VSpentAndTrimmed lists outpoints that an accepted block recorded both as spent and as trimmed.
+func (n *VNode) VSpentAndTrimmed(blk *types.WorkObject) []string {
+	db := n.DB[2]
+	spent, _ := rawdb.ReadSpentUTXOs(db, blk.Hash())
+	trimmed, _ := rawdb.ReadTrimmedUTXOs(db, blk.Hash())
+	set := map[types.OutPoint]bool{}
+	for _, s := range spent {
+		set[s.OutPoint] = true
+	}
+	var out []string
+	for _, t := range trimmed {
+		if set[t.OutPoint] {
+			out = append(out, fmt.Sprintf("%x:%d", t.TxHash[:6], t.Index))
+		}
+	}
+	return out
 }
